@@ -22,7 +22,7 @@ def search(ctx):
 
 
 MANIFEST = dict(
-    text="Machine-checked theorems over the executable TCP receiver model of C01 and a UDP datagram parser model: for every sent segment list and every received byte string after the sender's nonce the delivered segments are a prefix of the sent ones up to padding contents, nothing is delivered after the first failure, every delivered segment is authentic for any received stream; every datagram is discarded or has the metadata of a sealed datagram with the same nonce and exactly the length the size equations dictate; low entropy bodies are decoded before open with the tag untouched; padding contents never matter. Two parts of the property are refuted on the faithful model with witnesses that reproduce on the code (nonce header rewrite skips leading TCP segments; a UDP payload box can be replaced by the datagram's metadata box). The extracted receivers run on mutated real traffic (every field class x mutation kind; every byte offset in the thorough tier) against the real readOneSegment receivers, and mutated end-to-end runs of real Mux pairs are judged against the property text.",
+    text="Machine-checked theorems over the executable TCP receiver model of C01 and a UDP datagram parser model: for every sent segment list and every received byte string after the sender's nonce the delivered segments are a prefix of the sent ones up to padding contents, nothing is delivered after the first failure, every delivered segment is authentic for any received stream; every datagram is discarded or has the metadata of a sealed datagram with the same nonce and exactly the length the size equations dictate; low entropy bodies are decoded before open with the tag untouched; padding contents never matter; a box sealed by the receiver's own side (reflection: shared key and session id) is never handed to its application on either transport (direction filter of Session.input in the delivery step); a UDP session releases segments only in sequence order without gaps, also when a close arrives. Two parts of the property are refuted on the faithful model with witnesses that reproduce on the code (nonce header rewrite skips leading TCP segments; a UDP payload box can be replaced by the datagram's metadata box). The extracted receivers run on mutated real traffic (every field class x mutation kind; every byte offset in the thorough tier) against the real readOneSegment receivers, and mutated end-to-end runs of real Mux pairs are judged against the property text.",
     note="INT-CTXT, counter-nonce non-wrap and per-datagram fresh nonces are premises; the AEAD of the run is the table of the recorded real boxes; runs use Go's faketime runtime.",
     technique="Coq proof (induction over the incremental stream parser with the sender's box sequence as invariant; case analysis of the datagram size equations) + differential run of the extracted receivers against pkg/protocol's receivers on mutated recorded traffic + end-to-end man-in-the-middle runs on a simulated network",
 )
